@@ -336,6 +336,7 @@ func (c *Client) mergeLatest(msg []byte) error {
 		c.latestMu.Lock()
 		latestMsg := c.latestMsg
 		c.latestMu.Unlock()
+		verifYield("mergecfg:before-write")
 		if err := c.ops.WriteConfig(c.name+"/latest", msg, latestMsg); err != ErrWriteConflict {
 			// Success or a non-write-conflict error.
 			return err
@@ -385,6 +386,7 @@ func (c *Client) mergeLatestMem(msg []byte) (when int, err error) {
 	latest := c.latest
 	latestMsg := c.latestMsg
 	c.latestMu.Unlock()
+	verifYield("merge:snapshot")
 
 	for {
 		// If the tree head looks old, check that it is on our timeline.
@@ -405,10 +407,12 @@ func (c *Client) mergeLatestMem(msg []byte) (when int, err error) {
 
 		// Install our msg if possible.
 		// Otherwise we will go around again.
+		verifYield("merge:before-install")
 		c.latestMu.Lock()
 		installed := false
 		if c.latest == latest {
 			installed = true
+			verifInstall(c, c.latest.N, tree.N)
 			c.latest = tree
 			c.latestMsg = msg
 		} else {
@@ -416,6 +420,9 @@ func (c *Client) mergeLatestMem(msg []byte) (when int, err error) {
 			latestMsg = c.latestMsg
 		}
 		c.latestMu.Unlock()
+		if !installed {
+			verifYield("merge:retry")
+		}
 
 		if installed {
 			return msgFuture, nil
@@ -626,6 +633,7 @@ func (r *tileReader) SaveTiles(tiles []tlog.Tile, data [][]byte) {
 		}
 	}
 	c.tileSavedMu.Unlock()
+	verifYield("save:before-write")
 
 	for i, tile := range tiles {
 		if save[i] {
